@@ -49,6 +49,13 @@ var alphaGeneral = []string{
 	// counted two-iteration loops (the second iteration takes the BTB-hit path)
 	"li t3, 2\nl%d:\naddi t0, t0, 1\naddi t3, t3, -1\nbnez t3, l%d",
 	"li t3, 2\nl%d:\nlw t1, 0(zero)\naddi t1, t1, 1\nsw t1, 0(zero)\naddi t3, t3, -1\nbnez t3, l%d",
+	// a branch that resolves late: its operand comes from a load that misses
+	"lw t3, 192(zero)\nbnez t3, end",
+	"lw t3, 192(zero)\nbnez t3, mid",
+	// a subroutine called from two sites (the same jalr returns to two different addresses)
+	"jal ra, f%d\naddi t1, t1, 1\njal ra, f%d\nj g%d\nf%d:\naddi t0, t0, 5\njalr zero, ra, 0\ng%d:",
+	// duplicated source register
+	"add t3, t0, t0",
 }
 
 var alphaCore = []string{
@@ -68,6 +75,7 @@ var alphaCore = []string{
 	"j end",
 	"jal ra, mid",
 	"ret",
+	"lw t3, 192(zero)\nbnez t3, end",
 }
 
 const epilogue = "end:\naddi t2, t0, 1\nsw t2, 128(zero)"
@@ -117,7 +125,7 @@ var c01Suite = &pxSuite{
 	Programs:   c01Programs,
 	Violates:   func(class string) bool { return class != "ok" && class != "cycle-bound" },
 	Nontrivial: nontrivialGeneral,
-	Rule:       "PX: every program of length <= 2 (quick) / <= 3 (thorough) over the 33-template general alphabet and of length 3 / 4 over the 16-template core alphabet (ALU incl. rd=rs aliases, lw/lb/lh/sw/sb/sh on lines 0 and 64, beq/bne/blt/bge/bltu/j/jal/jalr/ret to `mid`/`end`, two-iteration loop macros), fixed epilogue, x 2 initial states (thorough: 4 up to length 2, 2 for length 3, 1 for the length-4 core) x 33 configurations (12 variants, parallelism 1..4); oracle = sequential reference (registers x1..x31, whole memory, no error); non-trivial = distinct programs whose reference trace has a register dependence within two instructions, a taken branch, or more than one memory access (the epilogue stores once)",
+	Rule:       "PX: every program of length <= 2 (quick) / <= 3 (thorough) over the 37-template general alphabet and of length 3 / 4 over the 17-template core alphabet (ALU incl. rd=rs aliases, lw/lb/lh/sw/sb/sh on lines 0 and 64, beq/bne/blt/bge/bltu/j/jal/jalr/ret to `mid`/`end`, two-iteration loop macros, a late-resolving branch fed by a missing load, a subroutine called from two sites, a duplicated source register), fixed epilogue, x 2 initial states (thorough: 4 up to length 2, 2 for length 3, 1 for the length-4 core) x 33 configurations (12 variants, parallelism 1..4); oracle = sequential reference (registers x1..x31, whole memory, no error); non-trivial = distinct programs whose reference trace has a register dependence within two instructions, a taken branch, or more than one memory access (the epilogue stores once)",
 }
 
 func init() {
